@@ -571,20 +571,33 @@ fn gen_case(rng: &mut Rng, tier: Tier, next_id: &mut i64) -> Case {
     let (transport, enc) = *rng.pick(&[(Transport::Http, Enc::Proto), (Transport::Http, Enc::Json), (Transport::Grpc, Enc::Proto)]);
     let gzip = rng.bool();
     // signal subsets: mostly non-empty
-    let sigbits = if rng.chance(1, 20) { 0 } else { rng.range(1, 7) as u8 };
+    let sigbits = if rng.chance(1, 50) { 0 } else { rng.range(1, 7) as u8 };
     let sig = [sigbits & 1 != 0, sigbits & 2 != 0, sigbits & 4 != 0];
     let mut dead = [false; 3];
     if rng.chance(1, 6) {
         let live: Vec<usize> = (0..3).filter(|i| sig[*i]).collect();
-        if !live.is_empty() {
+        // "an outage of one signal's endpoint does not stop the others": mostly with other signals configured
+        if live.len() >= 2 || (live.len() == 1 && rng.chance(1, 4)) {
             dead[*rng.pick(&live)] = true;
         }
     }
-    let n_events = match rng.below(10) {
+    let n_events = match rng.below(30) {
         0 => 0,
-        1 => 1,
+        1 | 2 => 1,
         _ => rng.range(2, if tier == Tier::Thorough { 40 } else { 14 }) as usize,
     };
+    // kinds: mostly ones some configured signal takes (the others are discarded and only counted)
+    let routable: Vec<Kind> = [Kind::Log, Kind::Span, Kind::Metric]
+        .into_iter()
+        .filter(|k| {
+            let own = match k {
+                Kind::Log => 0,
+                Kind::Span => 1,
+                Kind::Metric => 2,
+            };
+            sig[own] || sig[0]
+        })
+        .collect();
     let mdls = ["hotlp::a", "hotlp::b::c"];
     let mut events = Vec::new();
     for _ in 0..n_events {
@@ -592,7 +605,7 @@ fn gen_case(rng: &mut Rng, tier: Tier, next_id: &mut i64) -> Case {
         *next_id += 1;
         events.push(Ev {
             id,
-            kind: *rng.pick(&[Kind::Log, Kind::Log, Kind::Span, Kind::Metric]),
+            kind: if !routable.is_empty() && rng.chance(5, 6) { *rng.pick(&routable) } else { *rng.pick(&[Kind::Log, Kind::Span, Kind::Metric]) },
             mdl: if rng.chance(3, 4) { mdls[0].to_string() } else { mdls[1].to_string() },
             pad: match rng.below(4) {
                 0 => 0,
